@@ -37,6 +37,11 @@ def Req.isChunk : Req → Bool
   | .chunk _ => true
   | _ => false
 
+/-- number of times `fetch_n` calls the wrapped iterator at most: the length of `begin..begin.saturating_add(n)`
+(the other requests count up to their chunk size) -/
+def iters (r : Req) (b : Nat) : Nat :=
+  if r.isChunk then satAdd b r.len - b else r.len
+
 /-- protocol-level outputs -/
 inductive POut where
   | fin
@@ -94,7 +99,9 @@ def step (s : Script) (t : Nat) (c : Cfg) : Cfg :=
   | .pre r b =>
     if c.C then setTh c t (ret x r .fin) else setTh c t { x with pc := .wait r b }
   | .wait r b =>
-    if b = c.Y then setTh c t { x with pc := .cs r b [] }
+    if b = c.Y then
+      if iters r b = 0 then setTh c t { x with pc := .setC r b }   -- empty index range: nothing is pulled
+      else setTh c t { x with pc := .cs r b [] }
     else if b < c.Y then setTh c t (ret x r .fin)
     else setTh c t { x with pc := .chk r b }
   | .chk r b =>
@@ -105,7 +112,7 @@ def step (s : Script) (t : Nat) (c : Cfg) : Cfg :=
     match s c.P with
     | .some v =>
       let acc' := acc ++ [v]
-      if acc'.length = r.len then setTh c' t { x with pc := .pub r b acc' }
+      if acc'.length = iters r b then setTh c' t { x with pc := .pub r b acc' }
       else setTh c' t { x with pc := .cs r b acc' }
     | .none =>
       if r.isSingle then setTh c' t { x with pc := .setC r b }
